@@ -471,6 +471,16 @@ def monitorOp (mu : Mon) (prev : Args) (toks : List String) (implOk : Bool) (out
           [mk "C02" "C02/decrease-effect" s!"{old.amount}->{new.amount} amt={amt}"]
         else if kind == "increase_allowance" && new.amount != old.amount + amt then
           [mk "C02" "C02/increase-effect" s!"{old.amount}->{new.amount} amt={amt}"]
+        else if (kind == "increase_allowance" || kind == "decrease_allowance") then
+          -- an expiry named by the owner is the one recorded (while the entry exists)
+          match a.optExp "expires" with
+          | some e =>
+            (if new.amount != 0 && new.expires != e then
+              [mk "C02" "C02/expiry-not-recorded" s!"requested={e.render} stored={new.expires.render}"] else []) ++
+            -- an expiry that has already passed is refused (a decrease that removes the entry ignores it)
+            (if e.isExpired mu.blk && (kind == "increase_allowance" || amt < old.amount) then
+              [mk "C02" "C02/expired-expiry-accepted" s!"requested={e.render} by {kind}"] else [])
+          | none => []
         else []
       -- notifications
       let msgs := out.str "msgs"
